@@ -23,12 +23,12 @@ pub fn play_digest(steps: &[Value], restart_after_commit: bool, keep_raw: bool) 
     let mut restarted = false;
     for (i, s) in steps.iter().enumerate() {
         p.raw.clear();
-        let _ = p.step(s);
+        let ev = p.step(s);
         out.per_event.push(p.digest.clone());
         if keep_raw {
             out.raw.push(p.raw.clone());
         }
-        if restart_after_commit && !restarted && 2 * i >= steps.len() && s["op"] == json!("commit") {
+        if restart_after_commit && !restarted && 2 * i >= steps.len() && s["op"] == json!("commit") && ev["res"] == json!("ok") {
             // a restart right after a commit preserves the state; its own answer is not part of the comparison
             p.digest_on = false;
             let _ = p.inst.reopen();
